@@ -24,6 +24,8 @@ VARIANTS = {
              "-fsanitize=address,undefined,float-cast-overflow,float-divide-by-zero",
              "-fno-sanitize=float-divide-by-zero",
              "-fno-sanitize-recover=all"],
+    # development only (tools/coverage.py): which lines of /repo/src do the generated cases reach
+    "cov": ["-O0", "-g", "-ffp-contract=off", "--coverage"],
 }
 
 
